@@ -15,7 +15,8 @@ mode "fault": the k-th call raises an OSError (handlers run).  The fault is inst
 error a real file system can return there (variant "<ERRNO>:<once|persist>": EIO, EACCES ->
 PermissionError, ENOENT -> FileNotFoundError, ENOSPC) and either once or persistently: with
 "persist" every later call of the same kind on the same path(s) in that run fails again, so a
-retry / fallback that re-issues the call does not get through.
+retry / fallback that re-issues the call does not get through.  A third field "kill@J" kills the
+process at a later boundary J, i.e. while the fault is being handled.
 
 Nothing here decides whether an outcome is acceptable: that is AtomicWrite.tla.
 """
@@ -56,9 +57,11 @@ _WRITE_EVENTS = {
 
 class Injector:
     def __init__(self, root: Path, dest: Path, k: int, mode: str, logfd: int, variant: str | None = None):
-        err, _, rep = (variant or "EIO:once").partition(":")
-        self.errno = getattr(errno, err)
-        self.persist = rep == "persist"
+        parts = (variant or "EIO:once").split(":")
+        self.errno = getattr(errno, parts[0])
+        self.persist = parts[1] == "persist"
+        # optional second injection "kill@J": the process dies at boundary J > k while the fault is being handled
+        self.kill_after = int(parts[2][len("kill@"):]) if len(parts) > 2 else None
         self.failing_site = None
         self.root = str(root)
         self.dest = str(dest)
@@ -172,6 +175,8 @@ class Injector:
             kind = self.mode
             if kind == "fault" and self.persist:
                 self.failing_site = raw
+        elif self.kill_after is not None and self.idx == self.kill_after and self.mode == "fault":
+            kind = "kill"
         elif self.failing_site is not None and raw == self.failing_site:
             kind = "fault"  # the same call on the same path is issued again: it fails again
         self.busy = True
